@@ -41,6 +41,8 @@ type runner struct {
 	tfs   []*transform.Transformer
 	tt    reflect.Type // final translated type
 	plain bool
+	// values returned so far by this case's transformers
+	results []earlier
 }
 
 func viol(key, format string, a ...any) *vrt.Verdict {
@@ -139,7 +141,7 @@ func (r *runner) forwardSliceStruct(v0 reflect.Value, f *mfield, rt reflect.Type
 	out := reflect.MakeSlice(rt, n, n)
 	want := reflect.MakeSlice(v0.Type(), n, n)
 	for i := 0; i < n; i++ {
-		want.Index(i).Set(v0.Index(i))
+		want.Index(i).Set(cloneDeep(v0.Index(i)))
 		if err := r.forwardElem(v0.Index(i), want.Index(i), out.Index(i), f.children); err != nil {
 			return out, want, err
 		}
@@ -151,6 +153,12 @@ func (r *runner) forwardSliceStruct(v0 reflect.Value, f *mfield, rt reflect.Type
 // structs by value).
 func byPath(v reflect.Value, path []string) reflect.Value {
 	for _, n := range path {
+		for v.Kind() == reflect.Pointer {
+			if v.IsNil() {
+				return reflect.Value{}
+			}
+			v = v.Elem()
+		}
 		if v.Kind() != reflect.Struct {
 			return reflect.Value{}
 		}
@@ -192,8 +200,26 @@ func (r *runner) forwardElem(src, wroot, dst reflect.Value, children []*mfield) 
 			}
 			dst.Field(idx).Set(tv)
 			byPath(wroot, c.origin).Set(w)
+		case kPStruct:
+			// a pointer-to-struct member of a (not pointerified) element:
+			// nil in the original stays nil
+			sp := byPath(src, c.origin)
+			if !sp.IsValid() {
+				return fmt.Errorf("element has no field %v", c.origin)
+			}
+			if sp.IsNil() {
+				continue
+			}
+			df := dst.Field(idx)
+			if df.Kind() != reflect.Pointer || df.Type().Elem().Kind() != reflect.Struct {
+				return fmt.Errorf("element field %q is not a pointer to struct", k)
+			}
+			df.Set(reflect.New(df.Type().Elem()))
+			if err := r.forwardElem(src, wroot, df.Elem(), c.children); err != nil {
+				return err
+			}
 		default:
-			return fmt.Errorf("unsupported pointer / slice of structs inside a slice element")
+			return fmt.Errorf("unsupported slice of structs inside a slice element")
 		}
 	}
 	return nil
@@ -340,19 +366,20 @@ func (r *runner) classify(filled map[string]bool, msg, fallback string) string {
 	return fallback
 }
 
-func (r *runner) roundTrip(fills []FillEntry, what string) *vrt.Verdict {
-	tv := reflect.New(r.tt).Elem()
-	exp := reflect.New(r.t0).Elem()
-	filled := map[string]bool{}
+// build makes the translated value for a fill and the expected original.
+func (r *runner) build(fills []FillEntry, what string) (tv, exp reflect.Value, filled map[string]bool, bad *vrt.Verdict) {
+	tv = reflect.New(r.tt).Elem()
+	exp = reflect.New(r.t0).Elem()
+	filled = map[string]bool{}
 	for _, fe := range fills {
 		tl, ok := r.md.pick(fe.Path, r.c.Sides)
 		if !ok {
 			v := vrt.Discardf("fill path not in the model")
-			return &v
+			return tv, exp, filled, &v
 		}
 		if tl.f.dead {
 			v := vrt.Discardf("fill of a field that cannot carry a value")
-			return &v
+			return tv, exp, filled, &v
 		}
 		if filled[fe.Path] {
 			continue
@@ -362,10 +389,39 @@ func (r *runner) roundTrip(fills []FillEntry, what string) *vrt.Verdict {
 			v := vrt.Discardf("harness cannot write the case: %v", err)
 			// a malformed replay; a generated case never gets here
 			if strings.HasPrefix(err.Error(), "no field with key") {
-				return viol("field-set", "%s: %v", what, err)
+				return tv, exp, filled, viol("field-set", "%s: %v", what, err)
 			}
-			return &v
+			return tv, exp, filled, &v
 		}
+	}
+	return tv, exp, filled, nil
+}
+
+// earlier is a value an earlier ReverseTranslate call on the same
+// transformers returned.
+type earlier struct {
+	what  string
+	fills []FillEntry
+	got   reflect.Value
+}
+
+// regionsOf: the memory of a returned value, including the struct itself.
+func regionsOf(v reflect.Value) []shape.Region {
+	if v.CanAddr() {
+		return shape.Regions(v.Addr())
+	}
+	return shape.Regions(v)
+}
+
+// roundTrip writes a fill into a fresh translated value, reverse-translates
+// it with the case's transformers and judges the result on its own; then every
+// value an earlier call returned is judged again against a freshly built
+// expectation (a later call must not change it) and must not share memory
+// with the new result.
+func (r *runner) roundTrip(fills []FillEntry, what string) *vrt.Verdict {
+	tv, exp, filled, bad := r.build(fills, what)
+	if bad != nil {
+		return bad
 	}
 	got, err, panicked := r.reverse(tv)
 	if err != nil {
@@ -381,6 +437,19 @@ func (r *runner) roundTrip(fills []FillEntry, what string) *vrt.Verdict {
 	if d := shape.Diff(exp, got); d != "" {
 		return viol(r.classify(filled, d, "value"), "%s: reverse-translated value differs from the expected original at %s (expected vs got); filled %v", what, d, shape.SortedKeys(filled))
 	}
+	for _, e := range r.results {
+		_, fresh, _, bad := r.build(e.fills, e.what)
+		if bad != nil {
+			return bad
+		}
+		if d := shape.Diff(fresh, e.got); d != "" {
+			return viol("earlier-result-mutated", "the value returned for the %s changed when ReverseTranslate was called again (%s): now differs from its own expectation at %s (expected vs now)", e.what, what, d)
+		}
+		if ov := shape.Overlap(regionsOf(e.got), regionsOf(got)); ov != "" {
+			return viol("results-share-memory", "the values returned for the %s and for the %s by the same transformers share memory: %s", e.what, what, ov)
+		}
+	}
+	r.results = append(r.results, earlier{what: what, fills: fills, got: got})
 	return nil
 }
 
@@ -494,6 +563,15 @@ func runC10(c Case) vrt.Verdict {
 	if len(c.Fill) > 0 {
 		if v := r.roundTrip(c.Fill, "filled translated value"); v != nil {
 			return *v
+		}
+	}
+	if len(c.Fill2) > 0 {
+		if v := r.roundTrip(c.Fill2, "second filled translated value"); v != nil {
+			return *v
+		}
+		labels = append(labels, "second-fill")
+		if len(c.Fill) > 0 {
+			labels = append(labels, "two-successive-fills")
 		}
 	}
 
@@ -690,6 +768,19 @@ func runC10(c Case) vrt.Verdict {
 			}
 		}
 	}
+	for _, fe := range append(append([]FillEntry{}, c.Fill...), c.Fill2...) {
+		if tl, ok := md.pick(fe.Path, c.Sides); ok && tl.f.kind == kSliceStruct && !fe.Empty {
+			ptrMember := false
+			for _, ch := range tl.f.children {
+				if ch.kind == kPStruct {
+					ptrMember = true
+				}
+			}
+			if ptrMember && makeLeaf(tl.f.otype, fe.Seed, r.plain, false).Len() >= 2 {
+				convs["slice-of-structs-with-pointer-members>=2-elements"] = true
+			}
+		}
+	}
 	for cv := range convs {
 		labels = append(labels, "filled:"+cv)
 	}
@@ -701,7 +792,7 @@ func runC10(c Case) vrt.Verdict {
 }
 
 const c10Rule = "a config struct type from the full shape grammar (scalars, durations, text-unmarshalable and named types, slices, arrays, maps, sets, user pointers, nested / pointer / embedded structs incl. embedded types with tagged and aliased fields, slices of structs, skipped fields; depth<=3, <=8 fields per struct) with generated dials / alias / source-specific / format tags whose words are known by construction; T0 = Pointerify(T); " +
-	"%s; embeddable types include structs with 2..3 differently typed nested struct members by value and by pointer between scalar leaves (hoisting them gives one input field several struct-typed outputs; leaves are filled in none / only non-last / some / all of them) and structs with unexported fields in first, middle and last position; slices of structs include elements that embed structs by value with unexported fields in first and middle position and with nested struct members (elements are not pointerified; the element with an unexported field in LAST position is generated only with VERIF_C10_TRAILING_UNEXPORTED=1 while finding anonflatten-trailing-unexported is open); leaf types include maps of a NAMED empty struct (map[string]Unit, map[int]Unit, *map[string]Unit), which are not sets: the set->slice mangler leaves them alone and they reverse unchanged; leaf types include maps whose KEY type is time.Duration (map[Duration]string, map[Duration][]int, map[Duration]Duration, map[Duration][]Duration, map[Duration]map[string]Duration, []map[Duration]int, *map[Duration]string, map[string]map[Duration]int), always filled with 1..3 entries, so that the Duration substitution has to translate and reverse map keys alone and together with values; a subset of the original leaves is written THROUGH their translated counterparts (values from seeds, converted forward by the model: set->slice, Duration->ParsingDuration, own text rendering for string casts, the type's own MarshalText for text-unmarshalers), for every aliased field through either the primary or the alias copy; in 3 of 4 cases every slice written into the translated value (top level, inside maps / pointers / arrays, inside elements of slices of structs) carries 1..3 elements of spare capacity holding junk, as append-grown decoder output does; with probability 3/8 a written leaf takes its EMPTY value instead of the seeded one -- the empty string for string leaves (through a string cast: a translated *string pointing to \"\", which must reverse to a non-nil pointer to \"\", not to an unset leaf) and a non-nil empty slice / map / set for collections (text \"\" through a string cast). " +
+	"%s; embeddable types include structs with 2..3 differently typed nested struct members by value and by pointer between scalar leaves (hoisting them gives one input field several struct-typed outputs; leaves are filled in none / only non-last / some / all of them) and structs with unexported fields in first, middle and last position; slices of structs include elements that embed structs by value with unexported fields in first and middle position and with nested struct members (elements are not pointerified; the element with an unexported field in LAST position is generated only with VERIF_C10_TRAILING_UNEXPORTED=1 while finding anonflatten-trailing-unexported is open); leaf types include maps of a NAMED empty struct (map[string]Unit, map[int]Unit, *map[string]Unit), which are not sets: the set->slice mangler leaves them alone and they reverse unchanged; leaf types include maps whose KEY type is time.Duration (map[Duration]string, map[Duration][]int, map[Duration]Duration, map[Duration][]Duration, map[Duration]map[string]Duration, []map[Duration]int, *map[Duration]string, map[string]map[Duration]int), always filled with 1..3 entries, so that the Duration substitution has to translate and reverse map keys alone and together with values; slices of structs also have elements with pointer-to-struct members and a nested value struct holding one ([]Node, 0..3 elements with different values; one sub-transformer serves all elements); TWO independent fills are reverse-translated one after the other by the same transformers (after the all-empty value), each judged on its own, then every earlier result is judged again against a freshly built expectation (a later ReverseTranslate must not change a value returned earlier: key earlier-result-mutated) and must be address-disjoint from the new result including the returned struct itself (key results-share-memory); a subset of the original leaves is written THROUGH their translated counterparts (values from seeds, converted forward by the model: set->slice, Duration->ParsingDuration, own text rendering for string casts, the type's own MarshalText for text-unmarshalers), for every aliased field through either the primary or the alias copy; in 3 of 4 cases every slice written into the translated value (top level, inside maps / pointers / arrays, inside elements of slices of structs) carries 1..3 elements of spare capacity holding junk, as append-grown decoder output does; with probability 3/8 a written leaf takes its EMPTY value instead of the seeded one -- the empty string for string leaves (through a string cast: a translated *string pointing to \"\", which must reverse to a non-nil pointer to \"\", not to an unset leaf) and a non-nil empty slice / map / set for collections (text \"\" through a string cast). " +
 	"Oracle: a descriptor-level model of each mangler gives every translated field its documented key (flattened dials / dialsenv / dialsflag / dialspflag tag, json / yaml / toml tag or Go name per nesting level, alias value for alias copies), type and conversion; translated fields are located by that key only; required: TranslateType yields exactly the model's key set and leaf types at every level, the reverse-translated value has type T0, each written leaf holds the value converted back, every other leaf is nil, parent pointers are allocated iff a leaf below is set, and an all-empty translated value reverses to an all-nil T0. " +
 	"non-trivial = chain length >= 2 and the shape has nesting (or an aliased field before a nested one); distinct = distinct case JSON"
 
